@@ -520,3 +520,9 @@ M("C12", "declarations-kept-per-module-name", "async_spa.py", "_LOGGER = logging
 M("C15", "hello-frame-allows-one-separator", "driver/protocol/hello.py", "        return received_bytes.startswith(HELLO_OPEN) and received_bytes.endswith(\n            HELLO_CLOSE\n        )", "        return received_bytes.startswith(HELLO_OPEN) and received_bytes.endswith(\n            HELLO_CLOSE\n        ) and received_bytes.count(b\"|\") <= 1", rule="R13")
 M("C19", "received-line-shows-the-first-256-bytes", "driver/udp_socket.py", "            _LOGGER.debug(\"Received %s from %s\", received_bytes, remote_end)", "            _LOGGER.debug(\"Received %s from %s\", received_bytes[:256], remote_end)", rule="R14")
 M("C11", "waterfall-demand-listed-under-another-spelling", "driver/packs/inye-v3-log-83.py", "            \"UdWaterfall\",\n", "            \"UdWaterFall\",\n", rule="R12")
+
+# --------------------------------------------------------------------------- round 19 rules
+M("C04", "set-value-versions-in-the-other-order", "driver/protocol/packcommand.py", "                        config_version,\n                        log_version,\n                        pos,", "                        log_version,\n                        config_version,\n                        pos,", rule="R8")
+M("C17", "refresh-stores-the-block-without-notifying", "driver/async_spastruct.py", "                                self.replace_status_block_segment(\n                                    request.start,\n                                    b\"\".join(segments),\n                                )", "                                data_ = b\"\".join(segments)\n                                self.set_status_block(self._status_block[: request.start] + data_ + self._status_block[request.start + len(data_) :])", rule="R10")
+M("C18", "keypadless-switch-makes-its-item-writable", "automation/switch.py", "        self._keypad_button = props[1]\n", "        self._keypad_button = props[1]\n        if self._keypad_button == 0:\n            self._accessor.set_read_write(\"ALL\")\n", rule="R10")
+M("C02", "accessor-tables-kept-on-the-class", "driver/async_spastruct.py", "class GeckoAsyncStructure:\n", "class GeckoAsyncStructure:\n    _tables = {}\n\n    def _remember(self, key, value):\n        self._tables[key] = value\n\n", rule="R18")
